@@ -119,7 +119,11 @@ def lean_side(pid, tier):
     res = {"thms": property_theorems(pid), "discharged": [], "problems": [], "build_ok": False, "driver_ok": False}
     import translate
     tr = translate.regenerate()
+    full = tr.pop("report", {}) if isinstance(tr, dict) else {}
     res["translator"] = tr
+    # the items this property's theorems rest on (module groups, counters, fingerprints, named helpers), with their status on this run
+    res["translator"]["items_for_this_property"] = {k: v[:160] for k, v in sorted(full.items())
+                                                    if (k in ITEM_PROPS or "." in k) and pid in translator_item_props(k)}
     # an item the translator no longer recognises is a broken tie for the properties built on it
     if tr.get("status") != "ok":
         res["problems"].append("translator failed: %s" % tr.get("error"))
